@@ -25,6 +25,7 @@ structure St where
   impl : List ImplNode := []
   gs : List TG := []
   known : List TAlert := []          -- the latest version of every alert the dispatcher has been given
+  pending : List (String × String × String × Int × Int) := []   -- (group key, receiver, alert, instant of the first flush due, instant of the put)
 
 def nodeOfIdx (σ : St) (i : Nat) : String :=
   match σ.model with
@@ -183,9 +184,40 @@ def stepTimed (σ : St) (t : Int) (put : Option TAlert) (obs : List String) (lin
     let modelG := sortS (gs3.map showGroup)
     let diffs := expectEq "notifications" (joinList " " modelN) (joinList " " implN) ++
                  expectEq "groups" (joinList " " modelG) (joinList " " (sortS implG))
-    let σ' := { σ with gs := gs3, known := known3 }
+    -- recreated_with_fresh_wait: an alert that opens a group (none live for its route and labels) must
+    -- be notified first after that route's group_wait (at once when already older), read off the
+    -- implementation's own notification times
+    let newPend : List (String × String × String × Int × Int) := match put with
+      | none => []
+      | some a =>
+        if a.ends ≤ t then [] else
+        let rs : List Route := «match» reFrag m a.ls
+        let ents := rs.filterMap fun (r : Route) =>
+          let node := nodeOfIdx σ r.idx
+          let gl := getGroupLabels a.ls r.opts
+          if gs1.any (fun g => g.node = node ∧ g.labels = gl) then none else
+          match σ.impl.find? (·.id = node) with
+          | none => none
+          | some n => some (groupKeyOf n.key (canon (getGroupLabels a.ls n.opts)), n.opts.receiver, lsTok a.ls,
+                            if a.starts + n.opts.groupWait < t then t else t + n.opts.groupWait, t)
+        -- sibling routes with identical matchers and receiver are indistinguishable in notifications: skip them
+        let allKeys : List (String × String) := rs.filterMap fun (r : Route) =>
+          match σ.impl.find? (·.id = nodeOfIdx σ r.idx) with
+          | none => none
+          | some n => some (groupKeyOf n.key (canon (getGroupLabels a.ls n.opts)), n.opts.receiver)
+        ents.filter fun e => (allKeys.filter fun f => f.1 = e.1 ∧ f.2 = e.2.1).length = 1
+    let pend0 := σ.pending.filter (fun e => !(newPend.any fun f => f.1 = e.1 ∧ f.2.1 = e.2.1 ∧ f.2.2.1 = e.2.2.1)) ++ newPend
+    let implNotifs := implN.filterMap parseNotif
+    let (pend1, pfWait) := pend0.foldl (fun (acc : List (String × String × String × Int × Int) × List Msg) e =>
+        match implNotifs.find? (fun n => decide (n.t ≥ e.2.2.2.2) && decide (n.key = e.1) && decide (n.recv = e.2.1) && n.alerts.any (fun b => lsTok b.1 = e.2.2.1)) with
+        | none => (acc.1 ++ [e], acc.2)
+        | some n => if n.t = e.2.2.2.1 then (acc.1, acc.2) else
+            (acc.1, acc.2 ++ [Msg.propfail "recreated_with_fresh_wait" "stale-wait"
+              s!"{lineTag} key={e.1} alert={e.2.2.1} first notified at {n.t}, group_wait puts it at {e.2.2.2.1}"]))
+      ([], [])
+    let σ' := { σ with gs := gs3, known := known3, pending := pend1 }
     let pf := groupsChecks σ' m t (implG.filterMap parseGroup) lineTag ++
-              notifChecks σ' allNotifs (implN.filterMap parseNotif) lineTag
+              notifChecks σ' allNotifs implNotifs lineTag ++ pfWait
     let tg (b : Bool) (s : String) : List Msg := if b then [.tag s] else []
     let tags := tg (routed.length > 1) "put:multi-route" ++
       tg (put.isSome ∧ gs2.length > gs1.length) "put:group-created" ++
